@@ -3536,6 +3536,7 @@ def deltify_pack_objects(
     *,
     window_size: int | None = None,
     progress: Callable[..., None] | None = None,
+    object_format: "ObjectFormat | None" = None,
 ) -> Iterator[UnpackedObject]:
     """Generate deltas for pack objects.
 
@@ -3559,6 +3560,7 @@ def deltify_pack_objects(
         sorted_objs,
         window_size=window_size,
         progress=progress,
+        object_format=object_format,
     )
 
 
@@ -3597,6 +3599,7 @@ def deltas_from_sorted_objects(
     objects: Iterator[tuple[ShaFile, bytes | None]],
     window_size: int | None = None,
     progress: Callable[..., None] | None = None,
+    object_format: "ObjectFormat | None" = None,
 ) -> Iterator[UnpackedObject]:
     """Create deltas from sorted objects.
 
@@ -3635,14 +3638,15 @@ def deltas_from_sorted_objects(
                 winner_base = base_id
                 winner = delta
                 winner_len = sum(map(len, winner))
+        digest = _object_digest(o, object_format)
         yield UnpackedObject(
             o.type_num,
-            sha=o.sha().digest(),
+            sha=digest,
             delta_base=winner_base,
             decomp_len=winner_len,
             decomp_chunks=winner,
         )
-        possible_bases.appendleft((o.sha().digest(), o.type_num, raw_bytes))
+        possible_bases.appendleft((digest, o.type_num, raw_bytes))
         while len(possible_bases) > window_size:
             possible_bases.pop()
 
@@ -3656,11 +3660,13 @@ def pack_objects_to_data(
     delta_window_size: int | None = None,
     ofs_delta: bool = True,
     progress: Callable[..., None] | None = None,
+    object_format: "ObjectFormat | None" = None,
 ) -> tuple[int, Iterator[UnpackedObject]]:
     """Create pack data from objects.
 
     Args:
       objects: Pack objects
+      object_format: Object format of the pack (default SHA-1)
       deltify: Whether to deltify pack objects
       delta_window_size: Delta window size
       ofs_delta: Whether to use offset deltas
@@ -3692,6 +3698,7 @@ def pack_objects_to_data(
                 iter(objects),  # type: ignore
                 window_size=delta_window_size,
                 progress=progress,
+                object_format=object_format,
             ),
         )
     else:
@@ -3699,9 +3706,9 @@ def pack_objects_to_data(
         def iter_without_path() -> Iterator[UnpackedObject]:
             for o in objects:
                 if isinstance(o, tuple):
-                    yield full_unpacked_object(o[0])
+                    yield full_unpacked_object(o[0], object_format)
                 else:
-                    yield full_unpacked_object(o)
+                    yield full_unpacked_object(o, object_format)
 
         return (count, iter_without_path())
 
@@ -3721,6 +3728,7 @@ def generate_unpacked_objects(
     Returns: Tuples with (type_num, hexdigest, delta base, object chunks)
     """
     todo = dict(object_ids)
+    object_format = getattr(container, "object_format", None)
     if reuse_deltas:
         for unpack in find_reusable_deltas(
             container, set(todo), other_haves=other_haves, progress=progress
@@ -3735,22 +3743,44 @@ def generate_unpacked_objects(
         objects_to_delta = container.iterobjects_subset(
             todo.keys(), allow_missing=False
         )
-        sorted_objs = sort_objects_for_delta((o, todo[o.id]) for o in objects_to_delta)
+        sorted_objs = sort_objects_for_delta(
+            (o, todo[ObjectID(_object_name(o, object_format))])
+            for o in objects_to_delta
+        )
         yield from deltas_from_sorted_objects(
             sorted_objs,
             window_size=delta_window_size,
             progress=progress,
+            object_format=object_format,
         )
     else:
         for oid in todo:
-            yield full_unpacked_object(container[oid])
+            yield full_unpacked_object(container[oid], object_format)
 
 
-def full_unpacked_object(o: ShaFile) -> UnpackedObject:
+def _object_digest(o: ShaFile, object_format: "ObjectFormat | None") -> bytes:
+    """Binary name of an object in the given object format (default SHA-1)."""
+    if object_format is None or object_format.oid_length == 20:
+        return o.sha().digest()
+    return o.sha(object_format).digest()
+
+
+def _object_name(o: ShaFile, object_format: "ObjectFormat | None") -> bytes:
+    """Hex name of an object in the given object format (default SHA-1)."""
+    if object_format is None or object_format.oid_length == 20:
+        return o.id
+    return o.get_id(object_format)
+
+
+def full_unpacked_object(
+    o: ShaFile, object_format: "ObjectFormat | None" = None
+) -> UnpackedObject:
     """Create an UnpackedObject from a ShaFile.
 
     Args:
       o: ShaFile object to convert
+      object_format: Object format the pack is written in; the object is
+        named with its hash (default SHA-1)
 
     Returns:
       UnpackedObject with full object data
@@ -3760,7 +3790,7 @@ def full_unpacked_object(o: ShaFile) -> UnpackedObject:
         delta_base=None,
         crc32=None,
         decomp_chunks=o.as_raw_chunks(),
-        sha=o.sha().digest(),
+        sha=_object_digest(o, object_format),
     )
 
 
@@ -3833,7 +3863,9 @@ def write_pack_objects(
       compression_level: the zlib compression level to use
     Returns: Dict mapping id -> (offset, crc32 checksum), pack checksum
     """
-    pack_contents_count, pack_contents = pack_objects_to_data(objects, deltify=deltify)
+    pack_contents_count, pack_contents = pack_objects_to_data(
+        objects, deltify=deltify, object_format=object_format
+    )
 
     return write_pack_data(
         write,
@@ -4741,7 +4773,9 @@ class Pack:
     def __getitem__(self, sha1: "ObjectID | RawObjectID") -> ShaFile:
         """Retrieve the specified SHA1."""
         type, uncomp = self.get_raw(sha1)
-        return ShaFile.from_raw_string(type, uncomp, sha=sha1)
+        return ShaFile.from_raw_string(
+            type, uncomp, sha=sha1, object_format=self.object_format
+        )
 
     def iterobjects(self) -> Iterator[ShaFile]:
         """Iterate over the objects in this pack."""
@@ -4753,6 +4787,8 @@ class Pack:
         self, shas: Iterable[ObjectID], *, allow_missing: bool = False
     ) -> Iterator[ShaFile]:
         """Iterate over a subset of objects in this pack."""
+        shas = list(shas)
+        object_format = self.object_format
         return (
             uo
             for uo in PackInflater.for_pack_subset(
@@ -4761,7 +4797,7 @@ class Pack:
                 allow_missing=allow_missing,
                 resolve_ext_ref=self.resolve_ext_ref,
             )
-            if uo.id in shas
+            if _object_name(uo, object_format) in shas
         )
 
     def iter_unpacked_subset(
